@@ -1,4 +1,5 @@
 //! C03 — leaving a scope restores the allocator exactly; earlier data survives; chunks acquired inside stay.
+use crate::check;
 use crate::common::*;
 use bump_scope::alloc::Allocator;
 use bump_scope::settings::BumpAllocatorSettings;
@@ -66,27 +67,27 @@ where
     kani::cover!(first.0 == 0, "[fail] an allocation inside the scope failed");
 
     // restored exactly
-    assert!(bump.stats().allocated() == allocated0, "C03: allocated byte count not restored after leaving the scope");
+    check!(bump.stats().allocated() == allocated0, "C03: allocated byte count not restored after leaving the scope");
     let cur = bump.stats().current_chunk().unwrap();
-    assert!(addr(cur.chunk_start()) == chunk0, "C03: current chunk not restored after leaving the scope");
-    assert!(addr(cur.bump_position()) == pos0, "C03: bump position not restored after leaving the scope");
-    assert!(unsafe { w1.read(addr(a) + ia) } == va, "C03: an allocation made before the scope changed");
+    check!(addr(cur.chunk_start()) == chunk0, "C03: current chunk not restored after leaving the scope");
+    check!(addr(cur.bump_position()) == pos0, "C03: bump position not restored after leaving the scope");
+    check!(unsafe { w1.read(addr(a) + ia) } == va, "C03: an allocation made before the scope changed");
     // chunks acquired inside remain available
     let count1 = bump.stats().count();
     let size1 = bump.stats().size();
-    assert!(count1 >= 1 && (inner_budget == 1 || count1 == 1), "C03: chunk count");
+    check!(count1 >= 1 && (inner_budget == 1 || count1 == 1), "C03: chunk count");
     // replaying the same workload needs no new memory and lands on the same addresses
     let calls1 = calls();
     let grants1 = grants();
     let second = leave::<St, KIND>(&mut *bump, work);
-    assert!(grants() == grants1, "C03: replaying the workload in a new scope obtained memory from the base allocator");
+    check!(grants() == grants1, "C03: replaying the workload in a new scope obtained memory from the base allocator");
     if first.0 != 0 && first.1 != 0 {
-        assert!(calls() == calls1, "C03: replaying a workload that fitted asked the base allocator again");
-        assert!(second == first, "C03: replaying the workload in a new scope returned different addresses");
+        check!(calls() == calls1, "C03: replaying a workload that fitted asked the base allocator again");
+        check!(second == first, "C03: replaying the workload in a new scope returned different addresses");
     }
-    assert!(bump.stats().count() == count1 && bump.stats().size() == size1, "C03: chunks disappeared after a scope");
-    assert!(bump.stats().allocated() == allocated0, "C03: allocated byte count not restored after the second scope");
-    assert!(addr(bump.stats().current_chunk().unwrap().bump_position()) == pos0, "C03: bump position not restored after the second scope");
+    check!(bump.stats().count() == count1 && bump.stats().size() == size1, "C03: chunks disappeared after a scope");
+    check!(bump.stats().allocated() == allocated0, "C03: allocated byte count not restored after the second scope");
+    check!(addr(bump.stats().current_chunk().unwrap().bump_position()) == pos0, "C03: bump position not restored after the second scope");
     kani::cover!(true, "END: harness ran to completion");
 }
 
@@ -109,7 +110,7 @@ where
             g.reset();
             // the guard stays alive: a second scope from the same guard starts from the same state
             let r2 = run(g.scope(), work);
-            assert!(r.0 == 0 || r.1 == 0 || r2 == r, "C03: a second scope from the same guard after reset() returned different addresses");
+            check!(r.0 == 0 || r.1 == 0 || r2 == r, "C03: a second scope from the same guard after reset() returned different addresses");
             r
         }
         3 => {
@@ -120,17 +121,17 @@ where
         }
         _ => bump.scoped_aligned::<8, _>(|s| {
             let p0 = addr(s.stats().current_chunk().unwrap().bump_position());
-            assert!(p0 % 8 == 0, "C18: position not aligned at entry of scoped_aligned");
+            check!(p0 % 8 == 0, "C18: position not aligned at entry of scoped_aligned");
             let a1 = match s.allocate(work.l1) {
                 Ok(p) => addr(p.cast()),
                 Err(_) => 0,
             };
-            assert!(addr(s.stats().current_chunk().unwrap().bump_position()) % 8 == 0, "C18: position not aligned after an allocation inside scoped_aligned");
+            check!(addr(s.stats().current_chunk().unwrap().bump_position()) % 8 == 0, "C18: position not aligned after an allocation inside scoped_aligned");
             let a2 = match s.allocate(work.l2) {
                 Ok(p) => addr(p.cast()),
                 Err(_) => 0,
             };
-            assert!(addr(s.stats().current_chunk().unwrap().bump_position()) % 8 == 0, "C18: position not aligned after the second allocation inside scoped_aligned");
+            check!(addr(s.stats().current_chunk().unwrap().bump_position()) % 8 == 0, "C18: position not aligned after the second allocation inside scoped_aligned");
             (a1, a2)
         }),
     }
@@ -200,24 +201,24 @@ where
     kani::cover!(outcome == 1 && bump.stats().count() == 1, "[fits] closure failed, slot was in the first chunk");
     kani::cover!(outcome == 2, "closure succeeded");
     if outcome != 2 {
-        assert!(bump.stats().allocated() == allocated0, "C03: allocated byte count not restored after alloc_try_with returned Err");
+        check!(bump.stats().allocated() == allocated0, "C03: allocated byte count not restored after alloc_try_with returned Err");
         let cur = bump.stats().current_chunk().unwrap();
-        assert!(addr(cur.chunk_start()) == chunk0, "C03: current chunk not restored after alloc_try_with returned Err");
-        assert!(addr(cur.bump_position()) == pos0, "C03: bump position not restored after alloc_try_with returned Err");
+        check!(addr(cur.chunk_start()) == chunk0, "C03: current chunk not restored after alloc_try_with returned Err");
+        check!(addr(cur.bump_position()) == pos0, "C03: bump position not restored after alloc_try_with returned Err");
     } else {
-        assert!(ok_addr % core::mem::align_of::<T>() == 0, "C01: alloc_try_with returned a misaligned value");
+        check!(ok_addr % core::mem::align_of::<T>() == 0, "C01: alloc_try_with returned a misaligned value");
         if MUT {
             // C15: the position ends right behind the value (in bump direction), the room reserved for the error is given back
             let p = addr(bump.stats().current_chunk().unwrap().bump_position());
             if St::UP {
-                assert!(p >= ok_addr + core::mem::size_of::<T>() && p - (ok_addr + core::mem::size_of::<T>()) < St::MIN_ALIGN, "C15: alloc_try_with_mut left more than the value (+ padding) allocated");
+                check!(p >= ok_addr + core::mem::size_of::<T>() && p - (ok_addr + core::mem::size_of::<T>()) < St::MIN_ALIGN, "C15: alloc_try_with_mut left more than the value (+ padding) allocated");
             } else {
-                assert!(p <= ok_addr && ok_addr - p < St::MIN_ALIGN, "C15: alloc_try_with_mut left more than the value (+ padding) allocated");
+                check!(p <= ok_addr && ok_addr - p < St::MIN_ALIGN, "C15: alloc_try_with_mut left more than the value (+ padding) allocated");
             }
         }
-        assert!(disjoint(ok_addr, core::mem::size_of::<T>(), addr(a), la.size()), "C01: alloc_try_with value overlaps an earlier block");
+        check!(disjoint(ok_addr, core::mem::size_of::<T>(), addr(a), la.size()), "C01: alloc_try_with value overlaps an earlier block");
     }
-    assert!(unsafe { w1.read(addr(a) + ia) } == va, "C03: an allocation made before changed");
+    check!(unsafe { w1.read(addr(a) + ia) } == va, "C03: an allocation made before changed");
     kani::cover!(true, "END: harness ran to completion");
 }
 
